@@ -40,8 +40,13 @@ EtOf(o) == [ok |-> o.et.ok = "yes", t |-> o.et.t]
 Judge(r) ==
     LET fm == FmOf(r)
         ops == r.ops
-        model == Run(fm, ops)
-        met == ExtractText(model)
+        \* the layer as the code is and with every combination of the proposed repairs: an observation that equals one
+        \* of them is exact (whichever repairs have been applied to the code by now)
+        models == [R \in SUBSET AllReps |-> RunR(fm, ops, R)]
+        mets == [R \in SUBSET AllReps |-> ExtractText(models[R])]
+        model == models[{}]
+        met == mets[{}]
+        needs == Needs(fm, ops)
         dom == InDomain(fm, ops)
         base == r.obs[1]
         baseGood == ReturnsShown(fm, ops, EtOf(base))
@@ -56,25 +61,33 @@ Judge(r) ==
                 good == ReturnsShown(fm, ops, et)
                 crashed == o.call \in {"panic", "build-panic"}
                 lost == dom /\ ~good /\ o.call # "save-load-failed"
-                why == IF crashed THEN "extract.panic"
+                exact == \E R \in SUBSET AllReps : ch = models[R] /\ et = mets[R]
+                \* the observation is what a layer that lacks a repair the page needs returns: the finding of that name
+                lacking == {R \in SUBSET AllReps : et = mets[R] /\ ~(needs \subseteq R)}
+                most == CHOOSE R \in lacking : \A Q \in lacking : Cardinality(Q) <= Cardinality(R)
+                why == IF crashed THEN <<"extract.panic">>
                        ELSE IF o.v # "base" /\ baseGood
-                            THEN (IF o.v = "split-raw" /\ o.merge = "yes" THEN "extract.d.split-no-eol" ELSE "extract.d." \o o.v)
-                       ELSE IF ~a THEN "extract.a"
-                       ELSE IF ~c THEN "extract.c"
-                       ELSE "extract.err-chunk"
-            IN [vs |-> If(lost, why),
-                dr |-> If(~lost /\ (ch # model \/ et # met), "exact." \o o.v)
-                       \o If(~lost /\ ~a, "a." \o o.v) \o If(~lost /\ ~b, "b." \o o.v) \o If(~lost /\ ~c, "c." \o o.v)
-                       \o If(~lost /\ ~d, "d." \o o.v)]
+                            THEN (IF o.v = "split-raw" /\ o.merge = "yes" THEN <<"extract.d.split-no-eol">> ELSE <<"extract.d." \o o.v>>)
+                       ELSE IF lacking # {} THEN SetToSeq({"extract." \o x : x \in needs \ most})
+                       ELSE IF ~a THEN <<"extract.a">>
+                       ELSE IF ~c THEN <<"extract.c">>
+                       ELSE <<"extract.err-chunk">>
+                explained == exact /\ lacking # {}
+            IN [vs |-> IF lost THEN why ELSE <<>>,
+                dr |-> If(~lost /\ ~exact, "exact." \o o.v)
+                       \o If(~lost /\ ~explained /\ ~a, "a." \o o.v) \o If(~lost /\ ~explained /\ ~b, "b." \o o.v)
+                       \o If(~lost /\ ~c, "c." \o o.v) \o If(~lost /\ ~d, "d." \o o.v)]
         all == [i \in 1..Len(r.obs) |-> One(r.obs[i])]
         vs == FoldLeft(LAMBDA acc, x : acc \o x.vs, <<>>, all)
               \o If(\E i \in unusable : r.fonts[i].pre = "yes", "extract.font-not-decodable")
         dr == FoldLeft(LAMBDA acc, x : acc \o x.dr, <<>>, all)
               \o If(\E i \in unusable : r.fonts[i].pre # "yes", "fontmap")
-        cat == IF dom THEN (IF AllShown(fm, ops) # <<>> THEN "domain-text" ELSE "domain-empty")
+        cat == IF dom THEN (IF AllShown(fm, ops) # <<>> THEN (IF needs # {} THEN "domain-text-needs" ELSE "domain-text") ELSE "domain-empty")
                ELSE IF Clean(fm, ops) THEN "outside-clean" ELSE "outside-errors"
+        \* the layer a negative control is synthesised from: the fully repaired one (it returns what the page shows)
+        full == models[AllReps]
     IN [v |-> IF vs # <<>> THEN vs[1] ELSE IF dr # <<>> THEN "ok-drift" ELSE "ok-exact", cat |-> cat, vs |-> vs, dr |-> dr,
-        nobs |-> Len(r.obs), model |-> [chunks |-> model, et |-> met]]
+        nobs |-> Len(r.obs), model |-> [chunks |-> full, et |-> ExtractText(full)]]
 
 \* A document of several pages and a list of calls [v, nums, call, chunks, et] ("mem" | "reload"): every call is
 \* compared exactly with the call-level model; clause (e) is evaluated on the observed one-page calls.
